@@ -502,6 +502,7 @@ class Normalizer:
                     break
             if self.propagated:
                 self._unroll_new_loops(node)      # a loop over a table that was held in a temporary
+        _expand_partials(node, snap)
         _identity_comprehensions(node)
         _split_tuple_assignments(node)
         if snap is not None and not os.environ.get("TYVERIF_NO_LOCALS"):
@@ -1051,3 +1052,37 @@ def _identity_comprehensions(fnode):
                 return ast.copy_location(ast.Call(func=ast.Name(id="list", ctx=ast.Load()), args=[n.generators[0].iter], keywords=[]), n)
             return n
     R().visit(fnode)
+
+
+def _expand_partials(fnode, snapshot):
+    """`g = partial(F, *a, **k)` for a NEW local g bound once: every call g(*b, **l) becomes F(*a, *b, **k, **l)"""
+    snapshot = snapshot or {}
+    defs = {}
+    for n in ast.walk(fnode):
+        if isinstance(n, ast.Assign) and len(n.targets) == 1 and isinstance(n.targets[0], ast.Name) and isinstance(n.value, ast.Call) \
+                and (dotted(n.value.func) or "").split(".")[-1] == "partial" and n.value.args and n.targets[0].id not in snapshot:
+            defs.setdefault(n.targets[0].id, []).append(n)
+    for name, ds in defs.items():
+        stores = [x for x in ast.walk(fnode) if isinstance(x, ast.Name) and x.id == name and isinstance(x.ctx, (ast.Store, ast.Del))]
+        if len(ds) != 1 or len(stores) != 1:
+            continue
+        loads = [x for x in ast.walk(fnode) if isinstance(x, ast.Name) and x.id == name and isinstance(x.ctx, ast.Load)]
+        calls = [c for c in ast.walk(fnode) if isinstance(c, ast.Call) and isinstance(c.func, ast.Name) and c.func.id == name]
+        if len(loads) != len(calls) or not calls:
+            continue            # the partial object escapes (passed on, stored): leave it alone
+        p = ds[0].value
+        for c in calls:
+            c.func = clone(p.args[0])
+            c.args = [clone(a) for a in p.args[1:]] + c.args
+            c.keywords = [clone(k) for k in p.keywords] + c.keywords
+        # drop the definition
+
+        class D(ast.NodeTransformer):
+            def visit_Assign(self, st):
+                return None if st is ds[0] else st
+        D().visit(fnode)
+        for owner in ast.walk(fnode):
+            for fld in ("body", "orelse", "finalbody"):
+                blk = getattr(owner, fld, None)
+                if isinstance(blk, list) and not blk and fld == "body":
+                    blk.append(ast.Pass())
